@@ -203,6 +203,32 @@ var toggleNames = []string{"pseudo", "partial", "germline", "focus", "environmen
 var unknownNames = []string{"vntifkey", "label", "sim_custom", "x_ref2", "ApEinfo_fwdcolor"}
 var words = []string{"phage", "coat", "protein", "hypothetical", "replication", "A", "B2", "ori", "synthetic", "construct", "E.", "coli", "K-12", "lacZ", "alpha", "(partial)", "5'", "region", "putative", "DNA-binding", "42", "3.1.2", "a/b", "x=y", "[EC]", "100%"}
 
+// quoteWords carry the two bytes that have a meaning inside a quoted value: the
+// double quote (written twice inside a value) and the backslash (no meaning in
+// the format, but an escape character in many parsers).
+var quoteWords = []string{"\"", "\"\"", "\"quoted\"", "say \"hi\" twice", "5'-\"", "C:\\dir\\", "\\", "\\\"x", "a\\b", "end\\"}
+
+// genQuotedText is genText with, now and then, a word holding a double quote or
+// a backslash spliced in at the start, in the middle or at the end.
+func genQuotedText(r *core.RNG, minw, maxw int) string {
+	t := genText(r, minw, maxw)
+	if !r.Chance(1, 7) {
+		return t
+	}
+	q := quoteWords[r.Intn(len(quoteWords))]
+	switch r.Intn(4) {
+	case 0:
+		return q + " " + t
+	case 1:
+		return t + " " + q
+	case 2:
+		return q
+	}
+	ws := strings.Split(t, " ")
+	ws[r.Intn(len(ws))] = q
+	return strings.Join(ws, " ")
+}
+
 func genText(r *core.RNG, minw, maxw int) string {
 	n := r.Range(minw, maxw)
 	ss := make([]string, n)
@@ -258,7 +284,7 @@ func genQual(r *core.RNG) qualSpec {
 		case 1:
 			return qualSpec{n, fmt.Sprint(r.Range(1, 99))}
 		}
-		return qualSpec{n, genText(r, 1, 4)}
+		return qualSpec{n, genQuotedText(r, 1, 4)}
 	}
 	n := quotedNames[r.Intn(len(quotedNames))]
 	switch r.Intn(8) {
@@ -292,7 +318,7 @@ func genQual(r *core.RNG) qualSpec {
 		}
 		return qualSpec{n, "/" + genText(r, 1, 3)}
 	}
-	return qualSpec{n, genText(r, 1, 6)}
+	return qualSpec{n, genQuotedText(r, 1, 6)}
 }
 
 func genFeature(r *core.RNG, n int) featSpec {
